@@ -813,3 +813,44 @@ Theorem run_arrivals cfg l :
                = map (fun p => (r_sev (snd p), c_fmt cfg (snd p)))
                      (filter (fun p => i <? lg_sinks (fst p)) (arrivals (c_min cfg) init_thresholds l)).
 Proof. rewrite run_seq_spec. apply arrivals_in_program_order. Qed.
+
+(* ---------------------------------------------------------------- no null dereference in any program *)
+
+Lemma delivery_no_fault cfg lg sv r : ~ In Fault (delivery cfg lg sv r).
+Proof.
+  unfold delivery. intros [H|H]; [discriminate|].
+  apply in_map_iff in H as (j & Hj & _). discriminate.
+Qed.
+
+Lemma spec_stmt_no_fault cfg th lg sv tag its : ~ In Fault (spec_stmt cfg th lg sv tag its).
+Proof. intros H. apply delivered_content in H. exact H. Qed.
+
+Lemma spec_close_no_fault cfg sw v : ~ In Fault (snd (spec_close cfg sw v)).
+Proof.
+  unfold spec_close. destruct (s_slots sw v) as [l|]; cbn [snd]; [|intros []].
+  destruct (l_on l); [apply delivery_no_fault | intros []].
+Qed.
+
+Lemma spec_op_no_fault cfg sw o : ~ In Fault (snd (spec_op cfg sw o)).
+Proof.
+  destruct o as [k s|lg sv tag its|v lg sv tag|v it|v]; cbn [spec_op].
+  - intros [].
+  - apply spec_stmt_no_fault.
+  - pose proof (spec_close_no_fault cfg sw v) as H. destruct (spec_close cfg sw v) as [sw1 ev]. exact H.
+  - destruct (s_slots sw v) as [l|]; [|intros []]. destruct (l_on l); [|intros []].
+    cbn [snd]. intros H. apply in_map_iff in H as (j & Hj & _). discriminate.
+  - apply spec_close_no_fault.
+Qed.
+
+Lemma spec_prog_no_fault cfg ops : forall sw, ~ In Fault (snd (spec_prog cfg sw ops)).
+Proof.
+  induction ops as [|o ops IH]; intros sw; [intros []|].
+  cbn [spec_prog]. pose proof (spec_op_no_fault cfg sw o) as H1.
+  destruct (spec_op cfg sw o) as [sw1 ev]. specialize (IH sw1).
+  destruct (spec_prog cfg sw1 ops) as [sw2 ev']. cbn [snd] in *.
+  rewrite in_app_iff. tauto.
+Qed.
+
+(* s->str() is never reached with s == nullptr: a record is owned only together with a buffer *)
+Theorem run_no_fault cfg ops : ~ In Fault (run cfg ops).
+Proof. rewrite run_refines_spec. apply spec_prog_no_fault. Qed.
